@@ -23,6 +23,11 @@ def _c15_case(c):
             return out
         return {"op": "regpage", "kind": p[1], "items": _items(p[2]), "cap": int(p[3]), "path": unhex(p[4]), "query": _kvs(p[5]),
                 "dec": {"M": int(p[6]), "Extra": _kvs(p[7]) or None, "Filter": p[8] == "1", "FHdr": unhex(p[9]), "FAnn": unhex(p[10])}}
+    if p[0] == "P":
+        ct = unhex(p[4])
+        return {"op": "ping", "state": p[1], "status": "0" if p[2] == "200" else p[2],
+                "code": "NAME_UNKNOWN" if p[3] == "1" else ("" if p[2] == "200" else "UNSUPPORTED"),
+                "ctype": "" if ct == "application/vnd.oci.image.index.v1+json" else ct}
     if p[0] == "L":
         return {"op": "link", "cmp": p[1], "header": unhex(p[2])}
     if p[0] == "F":
@@ -201,6 +206,11 @@ def _vm_goal(case, out):
             ["(%s, %s)" % tuple(_vm_str(x) for x in e.split(":")) for e in p[1].split(",")], "(str * str)")
         exp = _vm_list([] if o[0] == "_" else [_vm_str(x) for x in o[0].split(",")], "str")
         return "list_tags %s %s = %s" % (ents, _vm_str(p[2]), exp)
+    if k == "P":
+        state = {"U": "RUnknown", "S": "RSupported", "N": "RUnsupported"}
+        rs = "(mkResp %s %s %s true 0 0 [] [] [] [])" % (p[2], _vm_bool(p[3]), _vm_str(p[4]))
+        ans = {"1": "Some true", "0": "Some false", "E": "None"}[o[0]]
+        return "ping %s %s = (%s, %s)" % (state[p[1]], rs, state[o[1]], ans)
     if k == "X":
         limit, found, size, its, at, cbf = p[1:7]
         cb = "(fun k : nat => Nat.eqb k %d)" % int(cbf) if int(cbf) >= 0 else "(fun _ : nat => false)"
@@ -219,7 +229,7 @@ def _c15_vm_sample(d, tier, coq, build, want=300):
             i, _, o = l.rstrip("\n").partition(" ")
             outs[i] = o
     # a spread over the case kinds, small cases preferred (the term is type-checked too)
-    quota = {"C": 110, "W": 80, "S": 50, "L": 15, "F": 8, "FR": 8, "Z": 6, "O": 12, "X": 11}
+    quota = {"C": 105, "W": 75, "S": 50, "L": 15, "F": 8, "FR": 8, "Z": 6, "O": 12, "X": 11, "P": 10}
     got = collections.Counter()
     stride = collections.Counter()
     total = collections.Counter()
@@ -279,7 +289,7 @@ CONFIG = {
         "queries are association lists key -> value (n numeric); url.Values.Set = replace; the order of different keys is not modelled (compared key-sorted)",
         "the registry model's meaning of `last`: items after the entry named last; an unknown name is placed before the first greater item (= all greater items on a sorted registry, C15_last_on_sorted_registry); item names are non-empty and distinct",
         "a legal registry: page length in [1, min(cap, n)] chosen freely per request, Link iff items remain, link cursor = last item of the unfiltered page, link does not change artifactType, it filters whenever it announces filtering (header or annotation, comma separated list)",
-        "http transport, auth client and context cancellation are outside the model; Repository.Referrers' capability detection (unknown/supported/unsupported, fallback to the tag schema, state set once) is modelled (referrers_wrap, C15_referrers_capability) on top of the API loop and the tag-schema path; the tag-schema path is modelled at the level (tag found?, index size, listed referrers): limitSize + filterReferrers (C15_tag_schema), manifest fetch / digest verification are C13/C05 matters; pingReferrers (used by push/delete) is not part of the listings",
+        "http transport, auth client and context cancellation are outside the model; Repository.Referrers' capability detection (unknown/supported/unsupported, fallback to the tag schema, state set once) is modelled (referrers_wrap, C15_referrers_capability) on top of the API loop and the tag-schema path; the tag-schema path is modelled at the level (tag found?, index size, listed referrers): limitSize + filterReferrers (C15_tag_schema), manifest fetch / digest verification are C13/C05 matters; pingReferrers is modelled on one response (C15_ping_agrees)",
         "Link: only the first header line and its first <...> are read (model = code); link-values/lines AFTER the next link are covered by the theorems (trailer) and generated; a link-value of another relation BEFORE the next link is the known finding link-rel-ignored (C15_link_rel_first_refuted), generated in a separate stream whose failures carry only that signature",
         "Content-Type of a referrers response is compared verbatim with ocispec.MediaTypeImageIndex (hand-copied constant of the pinned image-spec dependency): parameters or another spelling count as 'no referrers API' (C15_content_type_exact) -- modelled as the code behaves, generated as a disturbance",
         "content/oci listTags is modelled on the resolver map as a list of (reference, digest of its descriptor) in any order; Go string order = byte-wise lexicographic order",
